@@ -14,53 +14,79 @@ Definition err_code (e : option perr) : Z :=
   | None => 0 | Some EHtml => 1 | Some EBinary => 2 | Some ETooLong => 3 | Some ERead => 4
   end%Z.
 
+(** What is observed of one list after a step: the stored file, rule count,
+    checksum, name, enabled flag, and whether the file on disk is another one
+    than before the step (inode or existence changed). *)
+Inductive lobs :=
+  | LO (id : N) (file : option bytes) (count sum : N) (name : bytes) (enabled rewritten : bool).
+
 (** One refresh: which arrays, forced?, the lists that are due, what each
-    list's source delivers; observed afterwards: per list the stored file,
-    rule count and checksum, and the verdicts of the probe names. *)
+    list's source delivers.  One call of set_url with the URL kept: array,
+    list, new name, new enabled flag, what the source delivers if it is asked;
+    observed: restart flag and error.  Observed after each step: the lists
+    and the verdicts of the probe names. *)
 Inductive rstep :=
   | RStep (block allow force : bool) (due : list N) (ocs : list (N * outcome))
-          (obs_lists : list (N * option bytes * N * N)) (obs_verdicts : list N).
+          (obs_lists : list lobs) (obs_verdicts : list N)
+  | RSet (allow : bool) (id : N) (name : bytes) (enabled : bool) (o : outcome)
+         (obs_restart obs_err : bool) (obs_lists : list lobs) (obs_verdicts : list N).
 
 Inductive case :=
   (* text, reader ends in an error; observed: error class, title, rule count,
      bytes written, checksum, bytes written to dst *)
   | CParse (x : list piece) (read_err : bool) (obs_err : Z) (obs_title : bytes)
            (obs_count obs_written obs_sum : N) (obs_out : list piece)
-  (* block lists and allow lists (id, enabled), probe names, refresh history *)
-  | CRefresh (bl al : list (N * bool)) (probes : list bytes) (steps : list rstep).
+  (* block lists and allow lists (id, enabled, name), probe names, history *)
+  | CRefresh (bl al : list (N * bool * bytes)) (probes : list bytes) (steps : list rstep).
 
-Definition mk_list (p : N * bool) : flist :=
-  {| f_id := fst p; f_enabled := snd p; f_count := 0; f_sum := 0 |}.
+Definition mk_list (p : N * bool * bytes) : flist :=
+  let '(i, en, name) := p in
+  {| f_id := i; f_enabled := en; f_name := name; f_count := 0; f_sum := 0 |}.
 
 Definition oc_of (ocs : list (N * outcome)) (i : N) : outcome :=
   match find (fun e => fst e =? i) ocs with Some e => snd e | None => OOpenErr end.
 
-Definition run_step (s : rstep) (st : rstate) : rstate :=
+(** The model's step and whether the reported flags agree. *)
+Definition run_step (s : rstep) (st : rstate) : bool * rstate :=
   match s with
   | RStep b a f due ocs _ _ =>
-      refresh crc32_update b a f (fun i => existsb (N.eqb i) due) (oc_of ocs) st
+      (true, refresh crc32_update b a f (fun i => existsb (N.eqb i) due) (oc_of ocs) st)
+  | RSet a i name en o rs er _ _ =>
+      let '(rs', er', st') := set_props crc32_update a i name en o st in
+      (* the restart flag is only looked at when there is no error *)
+      (Bool.eqb er er' && (er || Bool.eqb rs rs'), st')
   end.
 
-Definition list_agrees (st : rstate) (o : N * option bytes * N * N) : bool :=
-  let '(i, file, cnt, sum) := o in
-  match find (fun l => f_id l =? i) (r_block st ++ r_allow st) with
-  | Some l => (f_count l =? cnt) && (f_sum l =? sum) && eqb_option eqb_bytes (fget i (r_files st)) file
-  | None => false
+Definition file_gen (i : N) (fs : files) : option N :=
+  match fentry i fs with Some e => Some (fst e) | None => None end.
+
+Definition list_agrees (st0 st : rstate) (o : lobs) : bool :=
+  match o with
+  | LO i file cnt sum name en rw =>
+      match find (fun l => f_id l =? i) (r_block st ++ r_allow st) with
+      | Some l => (f_count l =? cnt) && (f_sum l =? sum) && eqb_bytes (f_name l) name &&
+                  Bool.eqb (f_enabled l) en &&
+                  eqb_option eqb_bytes (fget i (r_files st)) file &&
+                  Bool.eqb (negb (eqb_option N.eqb (file_gen i (r_files st)) (file_gen i (r_files st0)))) rw
+      | None => false
+      end
   end.
 
-Definition step_agrees (probes : list bytes) (s : rstep) (st : rstate) : bool :=
-  match s with
-  | RStep _ _ _ _ _ ol ov =>
-      forallb (list_agrees st) ol && eqb_list N.eqb (map (verdict (r_engine st)) probes) ov
-  end.
+Definition step_obs (s : rstep) : list lobs * list N :=
+  match s with RStep _ _ _ _ _ ol ov => (ol, ov) | RSet _ _ _ _ _ _ _ ol ov => (ol, ov) end.
+
+Definition step_agrees (probes : list bytes) (s : rstep) (st0 st : rstate) : bool :=
+  let '(ol, ov) := step_obs s in
+  forallb (list_agrees st0 st) ol && eqb_list N.eqb (map (verdict (r_engine st)) probes) ov.
 
 Fixpoint run_steps (probes : list bytes) (ss : list rstep) (st : rstate) : bool :=
   match ss with
   | [] => true
-  | s :: r => let st' := run_step s st in step_agrees probes s st' && run_steps probes r st'
+  | s :: r => let '(ok, st') := run_step s st in
+              ok && step_agrees probes s st st' && run_steps probes r st'
   end.
 
-Definition init_state (bl al : list (N * bool)) : rstate :=
+Definition init_state (bl al : list (N * bool * bytes)) : rstate :=
   {| r_block := map mk_list bl; r_allow := map mk_list al; r_files := [];
      r_engine := {| e_block := []; e_allow := [] |} |}.
 
@@ -79,8 +105,10 @@ Fixpoint explain_steps (probes : list bytes) (ss : list rstep) (st : rstate) :=
   match ss with
   | [] => []
   | s :: r =>
-      let st' := run_step s st in
-      (map (fun l => (f_id l, f_count l, f_sum l, fget (f_id l) (r_files st'))) (r_block st' ++ r_allow st'),
+      let '(ok, st') := run_step s st in
+      (ok,
+       map (fun l => (f_id l, f_enabled l, f_name l, f_count l, f_sum l, fgen (f_id l) (r_files st'),
+                      fget (f_id l) (r_files st'))) (r_block st' ++ r_allow st'),
        map (verdict (r_engine st')) probes) :: explain_steps probes r st'
   end.
 
